@@ -21,7 +21,7 @@ REAL = ["all train_* routines incl. buffers, losses, optimisers", "MemoryLogger"
 STUB = ["environment (SimEnv / SimTabEnv, seeded sampler)"]
 ASSUMPTIONS = ["XLA thread configuration and platform are held fixed between twins (the property assumes the same machine)",
                "identically initialised function approximators = built by the same constructor calls from the same seed in each interpreter"]
-TIERS = {"quick": {"runs": 54}, "thorough": {"runs": 540}}
+TIERS = {"quick": {"runs": 84}, "thorough": {"runs": 588}}
 REQUIRED = ["twin_pairs_equal", "different_seed_differs"]
 REQUIRED_QUICK = REQUIRED
 CHUNK = 24  # TrainSim plans per fresh worker process
@@ -83,8 +83,8 @@ def make_plan(rng, tier, index):
             c["exploration_noise"] = rng.choice([0.1, 0.2])
         if "buffer_size" in c:
             c["buffer_size"] = max(c["buffer_size"], 8)
-        if not plan["env"]["discrete"] and rng.random() < 0.3:
-            plan["env"]["act_dtype"] = "float64"
+        if not plan["env"]["discrete"] and (index // len(rs)) % 3 == 1:
+            plan["env"]["act_dtype"] = "float64"  # every third plan of a routine: a legal float64 action space
     elif kind == "sched":
         from rlsim import schedsim
         while True:
@@ -100,6 +100,9 @@ def make_plan(rng, tier, index):
             plan["b1"], plan["b2"] = plan["total_timesteps"] // 2, plan["total_timesteps"] // 2
             plan["K"] = 2
         plan["interval"] = rng.choice([1, 2])
+        if name == "active_mt" and (index // len(rs)) % 3 != 2:
+            plan["selector"] = rng.choice(["Monotonic Progress", "Best Reward", "Diversity", "1-step Progress"])  # D-UCB based (hyper-parameters matter)
+            plan["total_timesteps"] = max(plan["total_timesteps"], 35)
         plan.update(check=PROPERTY, engine="sched", adapter=name)
     else:
         plan = tabsim.make_tab_plan(rng, name, rng.choice([10, 25]))
